@@ -2,6 +2,7 @@ mod c02;
 mod c04;
 mod c05;
 mod c06;
+mod c07;
 mod c12;
 mod c11;
 mod c13;
@@ -45,6 +46,8 @@ fn main() {
         "c04" => c04::run(&out, seed, thorough),
         "c06" => c06::run(&out, seed, thorough),
         "c05" | "c08" => c05::run(&out, seed, thorough, &cmd),
+        "c07" => c07::run(&out, seed, thorough),
+        "c07-probe" => c07::probe(),
         "c12" => c12::run(&out, seed, thorough),
         "c11" => c11::run(&out, seed, thorough),
         "c13" => c13::run(&out, seed, thorough),
